@@ -4,9 +4,14 @@ package main
 // nodes (every Bind goes to a node that is not yet in the node-subnet cache, as after a restart or a reload).
 
 import (
+	"bytes"
 	"context"
 	"fmt"
+	"net/http"
+	"net/http/httptest"
 	"sync/atomic"
+
+	restful "github.com/emicklei/go-restful"
 
 	corev1 "k8s.io/api/core/v1"
 	extensionfake "k8s.io/apiextensions-apiserver/pkg/client/clientset/clientset/fake"
@@ -21,6 +26,8 @@ import (
 	"k8s.io/client-go/tools/cache"
 	"tkestack.io/galaxy/pkg/api/galaxy/constant"
 	"tkestack.io/galaxy/pkg/api/k8s/schedulerapi"
+	ipamapi "tkestack.io/galaxy/pkg/ipam/api"
+	galaxyv1 "tkestack.io/galaxy/pkg/ipam/apis/galaxy/v1alpha1"
 	fakeGalaxyCli "tkestack.io/galaxy/pkg/ipam/client/clientset/versioned/fake"
 	galaxylister "tkestack.io/galaxy/pkg/ipam/client/listers/galaxy/v1alpha1"
 	ipamcontext "tkestack.io/galaxy/pkg/ipam/context"
@@ -58,7 +65,24 @@ func pluginOps(n int) (map[string]func(i int), error) {
 	ctx.PodLister = corelister.NewPodLister(podIdx)
 	ctx.StatefulSetLister = appslister.NewStatefulSetLister(idx())
 	ctx.DeploymentLister = appslister.NewDeploymentLister(idx())
-	ctx.PoolLister = galaxylister.NewPoolLister(idx())
+	// the named pool p1 exists at the API server and - the very same object, as an informer holds it - in the lister's cache
+	poolIdx := idx()
+	pool := &galaxyv1.Pool{ObjectMeta: metav1.ObjectMeta{Name: "p1", Namespace: "kube-system"}, Size: 3}
+	if created, err := gcli.GalaxyV1alpha1().Pools("kube-system").Create(context.TODO(), pool, metav1.CreateOptions{}); err == nil {
+		_ = poolIdx.Add(created.DeepCopy())
+	}
+	ctx.PoolLister = galaxylister.NewPoolLister(poolIdx)
+	// deployment pods of the pool: Filter reads the pool's size through the lister
+	poolPods := make([]*corev1.Pod, 8)
+	for i := range poolPods {
+		poolPods[i] = &corev1.Pod{ObjectMeta: metav1.ObjectMeta{Namespace: "ns1", Name: fmt.Sprintf("api-5f6c7d-x%d", i), UID: types.UID(fmt.Sprintf("pp%d", i)),
+			Annotations:     map[string]string{constant.IPPoolAnnotation: "p1"},
+			OwnerReferences: []metav1.OwnerReference{{Kind: "ReplicaSet", Name: "api-5f6c7d"}}},
+			Spec: corev1.PodSpec{Containers: []corev1.Container{{Name: "c", Resources: corev1.ResourceRequirements{
+				Requests: corev1.ResourceList{corev1.ResourceName(constant.ResourceName): resource.MustParse("1")}}}}}}
+		_, _ = kube.CoreV1().Pods("ns1").Create(context.TODO(), poolPods[i], metav1.CreateOptions{})
+		_ = podIdx.Add(poolPods[i])
+	}
 	p, err := schedulerplugin.NewFloatingIPPlugin(schedulerplugin.Conf{}, ctx)
 	if err != nil {
 		return nil, err
@@ -74,9 +98,29 @@ func pluginOps(n int) (map[string]func(i int), error) {
 	}
 	filter := func(i int) {
 		k := (i*7 + 3) % n
+		if i%3 == 2 {
+			_, _, _ = p.Filter(poolPods[i%len(poolPods)], nodes[k:k+1])
+			return
+		}
 		_, _, _ = p.Filter(pods[k], nodes[(k+1)%n:(k+1)%n+1])
 	}
+	pc := ipamapi.PoolController{PoolLister: ctx.PoolLister, Client: gcli, LockPoolFunc: p.LockDpPool, IPAM: p.GetIpam()}
+	poolCall := func(method, body string, h func(*restful.Request, *restful.Response)) {
+		hr := httptest.NewRequest(method, "/v1/pool/p1", bytes.NewReader([]byte(body)))
+		hr.Header.Set("Content-Type", "application/json")
+		req := restful.NewRequest(hr)
+		req.PathParameters()["name"] = "p1"
+		rec := httptest.NewRecorder()
+		resp := restful.NewResponse(rec)
+		resp.SetRequestAccepts("application/json")
+		h(req, resp)
+		_ = http.StatusOK
+	}
 	return map[string]func(i int){
+		"PoolController.CreateOrUpdate": func(i int) {
+			poolCall("POST", fmt.Sprintf(`{"name":"p1","size":%d}`, 2+i%3), pc.CreateOrUpdate)
+		},
+		"PoolController.Get":               func(i int) { poolCall("GET", "", pc.Get) },
 		"FloatingIPPlugin.Bind":            bind,
 		"FloatingIPPlugin.queryNodeSubnet": bind,
 		"FloatingIPPlugin.allocateIP":      bind,
